@@ -1,48 +1,53 @@
-(* C01 - exactly-once keyed state across worker failure and recovery. Statements only (proofs: Proofs/C01_Sys.v).
+(* C01 - exactly-once keyed state across worker failure and recovery. Statements only
+   (proofs: Proofs/C01_Sys.v delivery invariant, Proofs/C01_Cut.v alignment/cut invariant and publication).
 
    Model: Model/Sys.v (splits, runners, FIFO channels, aligning operators, job with acknowledgements in any order,
    ACrash of any subset at any action, restart from the latest published checkpoint with any new worker count).
    `papp owner st s k` = the records of split s in the keyed state of key k (application order);
    `sub k l` = the records of key k in l (split order).
-
-   FULL STATEMENT (kept visible): *)
+   The only premise is the well-formedness of the configuration: a key is owned by one of the m operators (C05 proves
+   it for the real key space); `owner_in_range_is_needed` shows the statement is false without it. *)
 From Coq Require Import List NArith Bool Arith Lia.
-From RV Require Import Model.Sys Proofs.C01_Sys.
+From RV Require Import Model.Sys Proofs.C01_Sys Proofs.C01_Cut.
 Import ListNotations.
 Import Sys.
 
+Definition owner_ok (owner : nat -> N -> nat) : Prop := forall m k, 0 < m -> owner m k < m.
+
 Definition exactly_once_statement : Prop :=
-  forall (splits : list (list rec)) (owner : nat -> N -> nat) (m : nat) (sched : list action) (s : nat) (k : N),
+  forall (splits : list (list rec)) (owner : nat -> N -> nat), owner_ok owner ->
+  forall (m : nat) (sched : list action) (s : nat) (k : N),
     s < nsplits splits ->
     let st := run splits owner (init m) sched in
     drained splits st -> papp owner st s k = sub k (Sys.split splits s).
 
-(* PROVED IN PART. The composition (induction over every schedule, crash actions anywhere, acknowledgements in any
-   order, restart with any worker count) is proved; what is NOT proved about Sys is the one component guarantee it is
-   composed from, `consistent_publication`: "when the last acknowledgement completes a checkpoint, the published
-   cuts + positions are exact" (Sys.ckpt_exact) = consistent_cut (C02: alignment) + positions_match_cut (C16) +
-   checkpoint_exact (C08) + published_complete (C12), stated for Sys. It is an explicit premise, not an axiom. *)
-Theorem exactly_once_partial :
-  forall (splits : list (list rec)) (owner : nat -> N -> nat),
-    consistent_publication splits owner ->
-    forall (m : nat) (sched : list action) (s : nat) (k : N),
-      s < nsplits splits ->
-      let st := run splits owner (init m) sched in
-      drained splits st -> papp owner st s k = sub k (Sys.split splits s).
-Proof. exact exactly_once_from_components. Qed.
-Print Assumptions exactly_once_partial.
+(* PROVED, for every input, owner map, worker count and schedule (emits, barriers, deliveries, checkpoint starts,
+   acknowledgements in any order, crashes of any subset at any action, restarts with any worker count): when all input
+   is consumed, the state of every key holds, per split, exactly that split's records of the key, each once, in order. *)
+Theorem exactly_once : exactly_once_statement.
+Proof. exact exactly_once_full. Qed.
+Print Assumptions exactly_once.
 
 (* the state handed to every invocation is the fold of an applied prefix: at every moment of every schedule, what the
    state of a key holds of a split is a prefix of the records of that key read so far from the split *)
-Theorem given_state_is_applied_prefix_partial :
-  forall (splits : list (list rec)) (owner : nat -> N -> nat),
-    consistent_publication splits owner ->
-    forall (m : nat) (sched : list action) (s : nat) (k : N),
-      s < nsplits splits ->
-      let st := run splits owner (init m) sched in
-      exists rest, papp owner st s k ++ rest = sub k (firstn (pos st s) (Sys.split splits s)).
-Proof. exact given_state_is_applied_prefix. Qed.
-Print Assumptions given_state_is_applied_prefix_partial.
+Theorem given_state_is_applied_prefix :
+  forall (splits : list (list rec)) (owner : nat -> N -> nat), owner_ok owner ->
+  forall (m : nat) (sched : list action) (s : nat) (k : N),
+    s < nsplits splits ->
+    let st := run splits owner (init m) sched in
+    exists rest, papp owner st s k ++ rest = sub k (firstn (pos st s) (Sys.split splits s)).
+Proof. exact given_state_is_applied_prefix_full. Qed.
+Print Assumptions given_state_is_applied_prefix.
+
+(* the composed component guarantees (consistent cut + positions match cut + checkpoint exact + published complete),
+   as a theorem of Sys: whatever is published at any moment of any schedule holds, per key and split, exactly the
+   records before the recorded position *)
+Theorem published_checkpoints_are_exact :
+  forall (splits : list (list rec)) (owner : nat -> N -> nat), owner_ok owner ->
+  forall (m : nat) (sched : list action),
+    match pub (run splits owner (init m) sched) with Some c => ckpt_exact splits c | None => True end.
+Proof. exact published_checkpoints_are_exact. Qed.
+Print Assumptions published_checkpoints_are_exact.
 
 (* unconditional: every schedule in which no acknowledgement is delivered to the job (failure-free runs, and any number
    of crashes of any subset before the first checkpoint is published) *)
@@ -86,4 +91,19 @@ Example ex_drained_satisfiable :
 Proof.
   intros st r o Hr Ho.
   destruct r as [|[|[|r]]]; [| | |lia]; (destruct o as [|[|[|o]]]; [| | |lia]); vm_compute; reflexivity.
+Qed.
+
+(* the premise owner_ok is needed: with a key routed to an operator that does not exist, a checkpoint is published whose
+   positions are past a record no cut holds, and the record is lost by the next restart *)
+Example owner_in_range_is_needed :
+  exists (splits : list (list rec)) (owner : nat -> N -> nat) (m : nat) (sched : list action) (s : nat) (k : N),
+    s < nsplits splits /\
+    let st := run splits owner (init m) sched in
+    drained splits st /\ papp owner st s k <> sub k (Sys.split splits s).
+Proof.
+  exists [[(1, 0)%N]], (fun _ _ => 5), 1, [AEmit 0; AStart; ABarrier 0; ADeliver 0 0; AAck 0; AAck 0; ACrash [0] 1], 0, 0%N.
+  split; [cbn; lia|]. split; [split|].
+  - intros s Hs. cbn in Hs. assert (s = 0) by lia. subst. vm_compute. reflexivity.
+  - intros r o. vm_compute. reflexivity.
+  - vm_compute. discriminate.
 Qed.
